@@ -147,6 +147,9 @@ func cmdReplayCSS(args []string) int {
 			case "accept-expected":
 				got, _ := handlerAccepts(c.Prop, v)
 				atomsTried[c.Prop]++
+				if un, _ := handlerAccepts("no-such-property-"+c.Prop, v); un {
+					add("unknown-accepts", fmt.Sprintf("the handler looked up for an unknown property accepts %q", v), "no-such-property-"+c.Prop, v)
+				}
 				if got {
 					atomsAccepted[c.Prop]++
 				} else {
